@@ -49,6 +49,13 @@ def rich_molecule(rng, cls):
     m.attrib["nested"] = {"a": [1, 2, {"b": 3}], "arr": __import__("numpy").arange(3.0)}
     m.atoms[0].attrib["nested"] = {"l": [1, [2, 3]], "d": {"x": 1}}
     m.atoms[-1].attrib["flat"] = "v"
+    # attribute values of other mapping / container types, and a reference to another atom of the same molecule
+    import collections
+    m.atoms[0].attrib["counter"] = collections.Counter("aabbbc")
+    m.atoms[-1].attrib["ordered"] = collections.OrderedDict([("z", 1), ("a", [2, 3])])
+    m.attrib["dd"] = collections.defaultdict(list, {"k": [1]})
+    m.atoms[0].attrib["tags"] = {"x", "y"}
+    m.atoms[0].attrib["partner"] = m.atoms[-1]
     m.bonds[0].attrib["nested"] = {"q": [0, {"z": 1}]}
     return m
 
